@@ -6,7 +6,7 @@ use std::time::Duration;
 use vl_model::ctx::{hash64, load_replay, ncpu, parallel, Acc, Args, Ctx};
 use vl_model::pt::{self, Fail};
 use vl_model::sock::{Peer, Scratch, Server, Wait};
-use vl_model::svc::t_service;
+use vl_tsvc::t_service;
 use vl_model::wire::*;
 
 pub const RULE: &str = "request sequences over the 54-symbol alphabet (18 kinds x {none,more,oneway}); \
